@@ -264,16 +264,13 @@ func (m *Machine) selectCells(base []Value, idx *Term) Value {
 	}
 	first, ok := base[0].(*Term)
 	if !ok {
-		// aggregate / non-scalar cells: concretise
-		i := m.concretize(idx)
-		return copyVal(base[i])
+		return m.selectNonScalar(base, idx)
 	}
 	allConst := true
 	for _, c := range base {
 		t, ok := c.(*Term)
 		if !ok {
-			i := m.concretize(idx)
-			return copyVal(base[i])
+			return m.selectNonScalar(base, idx)
 		}
 		if !t.IsConst() {
 			allConst = false
@@ -634,6 +631,10 @@ func (m *Machine) visitInstr(fr *frame, instr ssa.Instruction) continuation {
 			if c.c == 1 {
 				succ = 0
 			}
+		} else if v, ok := m.decideByMask(c); ok {
+			if v {
+				succ = 0
+			}
 		} else if m.tryIfConvert(fr, c) {
 			return kJump
 		} else if m.branch(c) {
@@ -662,8 +663,23 @@ func (m *Machine) visitInstr(fr *frame, instr ssa.Instruction) continuation {
 		*addr = m.zero(deref(instr.Type()))
 		m.allocs++
 	case *ssa.MakeSlice:
-		ln := m.concretizeLen(fr.get(instr.Len).(*Term), "makeslice")
-		cp := m.concretizeLen(fr.get(instr.Cap).(*Term), "makeslice")
+		if lt := fr.get(instr.Len).(*Term); !lt.IsConst() {
+			// attacker-sized allocation? (checked before the length is enumerated)
+			_, lsigned := widthOf(instr.Len.Type())
+			l64 := m.f.Resize(lt, 64, lsigned)
+			big := m.f.Cmp(OSlt, m.f.Const(64, uint64(m.maxAlloc)), l64)
+			if r, model := m.check(big); r == RSat {
+				saved, savedMemo := m.model, m.memo
+				m.setModel(model)
+				m.report("alloc", shortFn(fr.fn.String()), fmt.Sprintf("make with a length that can exceed %d elements (e.g. %d)", m.maxAlloc, int64(m.eval(l64))), true)
+				m.model, m.memo = saved, savedMemo
+				m.assume(m.f.Not(big))
+			}
+		}
+		_, lsg := widthOf(instr.Len.Type())
+		_, csg := widthOf(instr.Cap.Type())
+		ln := m.concretizeLen(fr.get(instr.Len).(*Term), lsg)
+		cp := m.concretizeLen(fr.get(instr.Cap).(*Term), csg)
 		if ln < 0 || cp < ln {
 			m.runtimePanic("makeslice", "makeslice: len out of range")
 		}
@@ -865,6 +881,34 @@ func (m *Machine) sliceBound(v Value, def int) int {
 func (m *Machine) slice(instr *ssa.Slice, x, lo, hi, max Value) Value {
 	switch x := x.(type) {
 	case *Str:
+		// s[lo:hi] with symbolic lo and constant width on an immutable string: bytes are table lookups
+		if lt, ok := lo.(*Term); ok && !lt.IsConst() && hi != nil {
+			if ht, ok := hi.(*Term); ok && lt.w == ht.w {
+				if wd := m.f.Bin(OSub, ht, lt); wd.IsConst() && wd.c <= 64 && x.Len() > 0 {
+					width := int(wd.c)
+					// bounds: lo + width <= len
+					maxLo := x.Len() - width
+					if maxLo < 0 {
+						m.runtimePanic("slice-bounds", "slice bounds out of range")
+					}
+					inb := m.f.Cmp(OUle, lt, m.f.Const(lt.w, uint64(maxLo)))
+					if !m.branchT(inb) {
+						m.runtimePanic("slice-bounds", "slice bounds out of range [symbolic]")
+					}
+					cells := make([]Value, x.Len())
+					for i := 0; i < x.Len(); i++ {
+						cells[i] = m.strAt(x, i)
+					}
+					out := make([]*Term, width)
+					for j := 0; j < width; j++ {
+						idx := m.f.Bin(OAdd, lt, m.f.Const(lt.w, uint64(j)))
+						// pad so that idx stays in range for the table
+						out[j] = m.selectCells(cells, idx).(*Term)
+					}
+					return m.mkStr(out)
+				}
+			}
+		}
 		l := m.sliceBound(lo, 0)
 		h := m.sliceBound(hi, x.Len())
 		if l < 0 || h < l || h > x.Len() {
@@ -915,4 +959,56 @@ func (m *Machine) poisonGlobals(p *ssa.Package) {
 			m.globals[g] = cell
 		}
 	}
+}
+
+// selectNonScalar reads base[idx] for pointer-like cells: cells holding the same value are grouped and the
+// exploration forks per group (smallest groups first, the largest is the fall-through), not per index.
+func (m *Machine) selectNonScalar(base []Value, idx *Term) Value {
+	type grp struct {
+		v   Value
+		idx []int
+	}
+	var groups []*grp
+	for i, c := range base {
+		found := false
+		for _, g := range groups {
+			if sameValue(g.v, c) {
+				g.idx = append(g.idx, i)
+				found = true
+				break
+			}
+		}
+		if !found {
+			if len(groups) >= 8 {
+				k := m.concretize(idx)
+				return copyVal(base[k])
+			}
+			groups = append(groups, &grp{v: c, idx: []int{i}})
+		}
+	}
+	// smallest first
+	for i := 0; i < len(groups); i++ {
+		for j := i + 1; j < len(groups); j++ {
+			if len(groups[j].idx) < len(groups[i].idx) {
+				groups[i], groups[j] = groups[j], groups[i]
+			}
+		}
+	}
+	for gi, g := range groups {
+		if gi == len(groups)-1 {
+			return copyVal(g.v)
+		}
+		if len(g.idx) > 64 {
+			k := m.concretize(idx)
+			return copyVal(base[k])
+		}
+		c := m.f.fls
+		for _, i := range g.idx {
+			c = m.f.Or(c, m.f.Cmp(OEq, idx, m.f.Const(idx.w, uint64(i))))
+		}
+		if m.branchT(c) {
+			return copyVal(g.v)
+		}
+	}
+	panic(pathAbort{abEngine, "selectNonScalar: no group"})
 }
